@@ -177,8 +177,8 @@ func (c *Ctx) HavocAll(st *State, keepGhost bool) {
 		if keepGhost && (fam == famHeld || fam == famWg) {
 			continue
 		}
-		if strings.HasPrefix(fam, "IT|") {
-			continue
+		if strings.HasPrefix(fam, "IT|") || fam == "SentNow" || fam == "Waited" || fam == "TokHeld" {
+			continue // thread-local ghost state of the executing function
 		}
 		old := st.arrays[fam]
 		c.HavocFam(st, fam)
@@ -536,7 +536,16 @@ func (c *Ctx) Unbox(st *State, v Term, t types.Type) Term {
 	}
 	// surjectivity instance: a value with tag T is the box of its payload
 	st.Assume(T(SBool, "(=> (= (tagof %s) %d) (= %s (%s (%s %s))))", v.S, id, v.S, bn, un, v.S))
-	return T(c.Reg.SortOf(t), "(%s %s)", un, v.S)
+	r := T(c.Reg.SortOf(t), "(%s %s)", un, v.S)
+	// a reference held inside an interface value refers to an object that exists
+	if r.Sort == SInt {
+		switch t.Underlying().(type) {
+		case *types.Pointer, *types.Map, *types.Chan:
+			al := c.Arr(st, famAlloc, ArraySort(SInt, SBool))
+			st.Assume(T(SBool, "(=> (= (tagof %s) %d) (and (>= %s 0) (or (= %s 0) (select %s %s))))", v.S, id, r.S, r.S, al.S, r.S))
+		}
+	}
+	return r
 }
 
 func (c *Ctx) TagIs(v Term, t types.Type) Term {
